@@ -142,6 +142,11 @@ func runProgram(r *h.Run, p Program, strict bool, emit bool) []step {
 			}
 			s.res[i], s.open[i] = b.run(c)
 			s.after[i], s.dumpErr[i] = b.dump()
+			if (c.Op == "createfile" || c.Op == "openfile") && b.name == "mem" && len(p.Calls) > 1 && !parseArg(c.P).empty && prev[i].kind(parseArg(c.P).comps) == kDir {
+				// CreateFile over a DIRECTORY (a kind conflict; the directory is the call's own destination) leaves afero's MemMapFs
+				// internally inconsistent in the same way: the in-memory back end is not used for the rest of such a program.
+				tainted[i] = true
+			}
 			if c.FaultAt > 0 && b.name == "mem" && len(p.Calls) > 1 {
 				// An injected I/O error can make Exists() answer false for a directory; Touch / WriteFile then create a file over it,
 				// which leaves afero's MemMapFs internally inconsistent (a later, innocent Rename aborts the process).  Faulted calls
